@@ -11,15 +11,9 @@ CONSTANTS
   SrcNeedsWs = FALSE
   EmptyRaises = FALSE
   Emit = FALSE
-  Objs = {1}
-  Rich = 2
+  Objs = {1, 2, 3, 4}
+  Rich = 0
   SharedMemo = FALSE
-  EmitObj = TRUE
-SPECIFICATION OSpec
-INVARIANT OTypeOK
-INVARIANT MemoSound
-INVARIANT NoGhostMemo
-PROPERTY ResSound
-VIEW OView
-INVARIANT PaletteDecided
+  EmitObj = FALSE
+SPECIFICATION TSpec
 CHECK_DEADLOCK FALSE
